@@ -227,3 +227,7 @@ def run(ctx, rep, tier):
         rectification(rep, F, tag)
     from . import units_rules
     units_rules.c10(ctx, rep)
+    from . import primitives
+    primitives.vector_primitives(rep, ctx.facts('default'), ctx.eff('default'), '', 'C10.R7')
+
+
